@@ -106,8 +106,13 @@ def _check_static(case, ctx, link):
             for a in case["chain"]:
                 if a[0] == "scale":
                     scale *= a[1]
-            if m.shape != (1, 3) or not np.array_equal(m[0], first * scale):
-                ctx.violation("static-value-changed", f"pull at {op[2]} returned {m.ravel()}, first publication was {first * scale}")
+            want = first * scale
+            if case.get("gridded") and case["flip_in"][k]:
+                want = want[::-1]
+            if case.get("units_in", ["m"] * 3)[k] == "mm":
+                want = want * 1000.0
+            if m.shape != (1, 3) or not np.allclose(m[0], want, rtol=1e-12, atol=0):
+                ctx.violation("static-value-changed", f"pull at {op[2]} by input {k} returned {m.ravel()}, the first publication as seen by this input is {want}")
                 return
             if refused:
                 times_after_refusal.add(op[2])
@@ -142,7 +147,8 @@ def _check_static(case, ctx, link):
 def _static_link(case):
     import finam as fm
 
-    g = fm.NoGrid(1)
+    gridded = bool(case.get("gridded"))
+    g = fm.UniformGrid((4,)) if gridded else fm.NoGrid(1)  # 3 cells <-> payloads of 3 values
     out = fm.Output(name="o", info=fm.Info(time=None, grid=g, units="m"), static=True)
     x = out
     adas = []
@@ -152,7 +158,10 @@ def _static_link(case):
         x = x >> ada
     inputs = []
     for k in range(case["n_in"]):
-        inp = fm.Input(name=f"i{k}", info=fm.Info(time=None, grid=g, units="m"), static=bool(case["static_in"][k]))
+        # an input may declare the same grid with the axis running the other way and / or other units: the value it
+        # serves (cached, if static) is the publication flipped / converted - the same at every pull
+        gk = fm.UniformGrid((4,), axes_increase=[False]) if gridded and case["flip_in"][k] else g
+        inp = fm.Input(name=f"i{k}", info=fm.Info(time=None, grid=gk, units=case.get("units_in", ["m"] * 3)[k]), static=bool(case["static_in"][k]))
         x >> inp
         inputs.append(inp)
     for inp in inputs:
@@ -179,7 +188,9 @@ def static_case(draw):
         else:
             ops.append(["pull", draw(st.integers(0, 2)), draw(st.one_of(st.none(), st.integers(-500, 5000)))])
     return {"chain": chain, "n_in": n_in, "static_in": [draw(st.booleans()) for _ in range(3)], "ops": ops,
-            "limit": draw(st.sampled_from([None, None, 0, 8, 1000]))}
+            "limit": draw(st.sampled_from([None, None, 0, 8, 1000])),
+            "gridded": draw(st.booleans()), "flip_in": [draw(st.booleans()) for _ in range(3)],
+            "units_in": [draw(st.sampled_from(["m", "m", "mm"])) for _ in range(3)]}
 
 
 # ------------------------------------------------------------------ (b) pull-based components
